@@ -48,7 +48,7 @@ use std::any::Any;
 use std::fmt::Debug;
 use std::rc::Rc;
 
-pub trait Num: RealNumber + Serialize + DeserializeOwned + std::iter::Sum + 'static {
+pub trait Num: RealNumber + Serialize + DeserializeOwned + std::iter::Sum + Default + 'static {
     const NAME: &'static str;
     fn eps64() -> f64;
 }
